@@ -34,13 +34,13 @@ def corpus():
 
 
 def gen_recoverc(tier, rng):
-    n = 6 if tier == "quick" else 200
+    n = 6 if tier == "quick" else 60
     # a record of four fragments followed by small ones: corruption inside a middle fragment
     cases = ["kbig0 8388608:8388608:4096:%d Px61=x01 Px62=p100000.%d.1 Px63=x03 Dx61 Px64=p70000.%d.3 # %d"
-             % (rng.randrange(2), rng.randrange(256), rng.randrange(256), 160 if tier == "quick" else 900)]
+             % (rng.randrange(2), rng.randrange(256), rng.randrange(256), 160 if tier == "quick" else 400)]
     for i in range(n):
         toks = crash.gen_history(rng, "k%d" % i, rng.choice([4, 8, 15]))
-        cases.append("%s # %d" % (" ".join(toks), 200 if tier == "quick" else 600))
+        cases.append("%s # %d" % (" ".join(toks), 200 if tier == "quick" else 300))
     return cases
 
 
